@@ -86,6 +86,9 @@ violated instance.  Clause numbers refer to DESIGN.md section 5 "C10".
                                   builder) marks every segment it adds direction-done on every path (the flag and its setter
                                   are derived: the bool member find_enclosing_ring reads through a const accessor of the
                                   scanned segment, and the NodeRefSegment method that assigns it true)
+  A5-backtracking-state-restored  a recursive function (find_candidates) that pushes onto a container before the self-call
+                                  (push dominates the call) and pops it after the call on some path pops it on EVERY normal
+                                  path from the call to the exit / next push / next self-call (the visited-locations stack)
   S5-equal-group-skipped-entirely in the scan `it = adjacent_find(it, end)` of try_to_merge a new pair test is only reachable
                                   after some test showed that a cursor is at the end or that its key differs from the one it is
                                   compared with (or the cursor was re-positioned by an algorithm/helper): assuming "never at
@@ -2091,6 +2094,46 @@ def direction_mark_rule(M, R):
         R.broken('A4: no function of %s both adds segments to a ring and calls find_enclosing_ring (unknown shape of the simple-case builder)' % BA)
 
 
+def backtracking_rule(M, R):
+    """A5: backtracking state around a recursive self-call: when a function pushes onto a container before it calls itself
+    (the push dominates the call) and pops that container after the call on SOME path, it pops it on EVERY normal path
+    from the call to the function exit / the next push / the next recursive call."""
+    n_inst = 0
+    for f in M.fns:
+        if f.is_lambda:
+            continue
+        recs = [c for c in calls_of(f) if c.get('u') == f.usr and live(f, c['id'])]
+        if not recs:
+            continue
+        muts = {}
+        for n in f.all_nodes():
+            if n.get('k') == 'call' and n.get('recv') is not None and 'q' in n and 'op' not in n and live(f, n['id']):
+                nm = n['q'].rsplit('::', 1)[-1]
+                kind = 'push' if nm in ('push_back', 'emplace_back', 'push_front', 'emplace_front', 'insert', 'emplace') else \
+                    ('pop' if nm in ('pop_back', 'pop_front', 'erase', 'resize', 'clear') else None)
+                root = f.root_var(n['recv'])
+                if kind and root is not None and (f.sn(n['recv']) or {}).get('k') in ('var', 'member'):
+                    muts.setdefault(root, {'push': [], 'pop': []})[kind].append(n)
+        for root, m in sorted(muts.items(), key=lambda kv: str(kv[0])):
+            for r in recs:
+                pushes = [p for p in m['push'] if f.elem_dominates(p['id'], r['id'])]
+                pops = {p['id'] for p in m['pop']}
+                restoring = [p for p in pops if path_search(f, r['id'], lambda e, p=p: e == p, lambda e: False) is not None]
+                if not pushes or not restoring:
+                    continue
+                n_inst += 1
+                push_ids = {p['id'] for p in pushes}
+                rec_ids = {c['id'] for c in recs}
+                w = path_search(f, r['id'], lambda e: (isinstance(e, tuple) and e[0] == 'exit') or e in push_ids or e in rec_ids,
+                                lambda e: e in pops or is_noreturn(f, e))
+                R.check(w is None, 'A5-backtracking-state-restored', '%s#%s-pushed-before-the-recursion-is-popped-on-every-path' % (f.q, root[-1]),
+                        f.loc(r['id']), '%s pushes onto `%s` before it calls itself and pops it afterwards only on some paths: the entry of this '
+                        'level stays on the stack and later branches of the search see it as visited; path without the pop: %s'
+                        % (f.q, root[-1], describe_path(f, w)))
+    if n_inst == 0:
+        R.broken('A5: no recursive function with push-before / pop-after the self-call found (unknown shape of the candidate search)')
+
+
 def end_points_rule(M, R, G):
     """G5: a segment is stored only under a test that decides that the LOCATIONS of its two end points differ."""
     fb = M.fb
@@ -2162,6 +2205,7 @@ def all_rules(fb, R):
     extremum_rules(M, R)
     group_skip_rule(M, R)
     direction_mark_rule(M, R)
+    backtracking_rule(M, R)
     try:
         G = Geo(fb)
         normal_form_rule(M, R, G)
@@ -2204,6 +2248,7 @@ def run(ctx):
     R.expect('G6-scan-covers-location-group', 1)
     R.expect('S5-equal-group-skipped-entirely', 1)
     R.expect('A4-classified-segments-marked-done', 1)
+    R.expect('A5-backtracking-state-restored', 1)
 
 
 # ====================================================================================================== positive self-test
@@ -2237,4 +2282,4 @@ SELFTESTS = [(rule, 'c10_assembler.cpp', _selftest_all) for rule in (
     'R4-ring-roles-in-output', 'D1-duplicates-cancel-in-pairs', 'P4-valid-input-within-limits-is-assembled',
     'A1-ring-sum-matches-segment-directions', 'G5-segment-end-points-differ', 'A2-reset-undoes-tentative-classification',
     'A3-extremum-tracker-consistent', 'G6-scan-covers-location-group', 'S5-equal-group-skipped-entirely',
-    'A4-classified-segments-marked-done')]
+    'A4-classified-segments-marked-done', 'A5-backtracking-state-restored')]
